@@ -137,8 +137,8 @@ def run(ctx):
                         names.append("{urn:zzz}%s" % etree.QName(sib.tag).localname)
                     x = etree.Element(ctx.rng.choice(names))
                     x.text = "s"
-                    if sib is not None and x.tag == names[-1] and len(sib) == 0 and sib.text:
-                        x.text = sib.text         # a lexically valid text for the sibling's type
+                    if sib is not None and x.tag == names[-1] and len(sib) == 0:
+                        x.text = sib.text         # a lexically valid text for the sibling's type (none when the sibling is nilled / empty)
                     p2.insert(pos, x)
                     pk = parent_kind(case, parent)
                     ty = case.model_type(xsdgen.height(d) + 1)
